@@ -493,7 +493,40 @@ func checkCandidate(r *avro.ReadBuf, b []byte) (rejected bool, err error) {
 	case rerr == nil && r.Len() != len(b)-n:
 		return false, fmt.Errorf("candidate % x: reference consumed %d bytes, Int64Codec.Skip %d", b, n, len(b)-r.Len())
 	}
+	// the same integers frame container files (block counts and sizes): a file that
+	// ends with the candidate where a block's record count belongs is incomplete
+	// whatever the candidate is (truncated, overlong, or a count without its
+	// block), unless the candidate is empty
+	if len(b) > 0 && len(b) <= 11 {
+		file := append(append([]byte(nil), c17Header()...), b...)
+		ferr := avro.ReadFile(bytes.NewReader(file), c17Row{}, func(unsafe.Pointer, *avro.ResourceBank) error { return nil })
+		if ferr == nil {
+			return rerr != nil, fmt.Errorf("a file that ends after the bytes % x in the place of a block's record count was read without error", b)
+		}
+	}
 	return rerr != nil, nil
+}
+
+// (a record with a field: a zero-width record would let a count of 2^62 stand for 2^62 records)
+type c17Row struct {
+	A int64 `json:"a"`
+}
+
+var c17HeaderBytes []byte
+
+func c17Header() []byte {
+	if c17HeaderBytes == nil {
+		fw, err := avro.NewFileWriter([]byte(`{"type":"record","name":"e","fields":[{"name":"a","type":"long"}]}`), avro.CompressionNull)
+		if err != nil {
+			panic(err)
+		}
+		var buf bytes.Buffer
+		if err := fw.WriteHeader(&buf); err != nil {
+			panic(err)
+		}
+		c17HeaderBytes = buf.Bytes()
+	}
+	return c17HeaderBytes
 }
 
 func runC17Case(c c17Case) error {
